@@ -218,3 +218,158 @@ Definition judge (c : case) : verdict :=
 (* what --replay prints: the model's retransmitting positions over the whole tick stream *)
 Definition explain (c : case) : list N :=
   fst (fire_positions (c_strategy c) (N.to_nat (total_ticks (c_script c))) 1).
+
+(* ================= ticker.go as a REGISTRY: ONE long-lived Ticker, many messages ==============
+   Production shares one Ticker between all messages of a channel: every
+   ScheduleRetransmissions call registers a handler (Ticker.onTick: nextHandlerId++;
+   handlers[nextHandlerId] = &handler{ctx, fn}, a Go map assignment — it OVERWRITES an
+   existing key), every tick walks the map, deletes the handlers whose context is done and
+   calls the others (each spawns the goroutine that calls its own strategy's Tick).
+   A history is a list of [rop]; observations are taken in drained states (every goroutine
+   spawned by the previous op has finished), so a tick reaches each strategy once before the
+   next op.  The order in which a tick walks the map is Go's; messages do not share anything,
+   so the per-message observation does not depend on it.
+   A message is identified by a number; its context is its own ([m_done]). *)
+Inductive rop := RSchedule (m : N) (s : strategy) | RCancel (m : N) | RTick.
+
+Record mrec := { m_id : N; m_done : bool; m_strat : strategy;
+                 m_rlog : list N }.   (* tick numbers at which it was retransmitted, latest first *)
+Record reg := { handlers : list (N * N);   (* Ticker.handlers: id -> the message it serves *)
+                next_id : N;               (* Ticker.nextHandlerId (uint64) *)
+                msgs : list mrec;          (* the messages' own contexts / strategies / logs *)
+                tickno : N }.              (* ticks delivered so far *)
+Definition reg_init : reg := {| handlers := []; next_id := 0; msgs := []; tickno := 0 |}.
+
+(* handlers[id] = h *)
+Definition map_set (id m : N) (hs : list (N * N)) : list (N * N) :=
+  filter (fun p => negb (fst p =? id)) hs ++ [(id, m)].
+Definition upd (m : N) (f : mrec -> mrec) (ms : list mrec) : list mrec :=
+  map (fun r => if m_id r =? m then f r else r) ms.
+Definition set_done (r : mrec) : mrec :=
+  {| m_id := m_id r; m_done := true; m_strat := m_strat r; m_rlog := m_rlog r |}.
+Definition tick_rec (t : N) (r : mrec) : mrec :=
+  let (s', f) := stick (m_strat r) in
+  {| m_id := m_id r; m_done := m_done r; m_strat := s';
+     m_rlog := if f then t :: m_rlog r else m_rlog r |}.
+Definition new_rec (m : N) (s : strategy) : mrec :=
+  {| m_id := m; m_done := false; m_strat := s; m_rlog := [] |}.
+(* handler.ctx.Err() != nil for the handler serving message m *)
+Definition is_done (ms : list mrec) (m : N) : bool :=
+  existsb (fun r => (m_id r =? m) && m_done r) ms.
+
+Definition rstep (st : reg) (o : rop) : reg :=
+  match o with
+  | RSchedule m s =>
+      let id := (next_id st + 1) mod w64 in
+      {| handlers := map_set id m (handlers st); next_id := id;
+         msgs := msgs st ++ [new_rec m s]; tickno := tickno st |}
+  | RCancel m =>
+      {| handlers := handlers st; next_id := next_id st;
+         msgs := upd m set_done (msgs st); tickno := tickno st |}
+  | RTick =>
+      let t := tickno st + 1 in
+      let keep := filter (fun p => negb (is_done (msgs st) (snd p))) (handlers st) in
+      {| handlers := keep; next_id := next_id st;
+         msgs := fold_left (fun ms p => upd (snd p) (tick_rec t) ms) keep (msgs st);
+         tickno := t |}
+  end.
+Definition rrun (h : list rop) : reg := fold_left rstep h reg_init.
+
+(* the reference the registry has to implement: no handler table at all, every message on
+   its own — a tick reaches exactly the messages whose context is live *)
+Definition fstep (st : list mrec * N) (o : rop) : list mrec * N :=
+  let (ms, t) := st in
+  match o with
+  | RSchedule m s => (ms ++ [new_rec m s], t)
+  | RCancel m => (upd m set_done ms, t)
+  | RTick => (map (fun r => if m_done r then r else tick_rec (t + 1) r) ms, t + 1)
+  end.
+Definition frun_from (st : list mrec * N) (h : list rop) : list mrec * N := fold_left fstep h st.
+Definition frun (h : list rop) : list mrec * N := frun_from ([], 0) h.
+
+(* the history as one message sees it: every tick, its own registration and cancellation *)
+Definition about (m : N) (o : rop) : bool :=
+  match o with RSchedule m' _ => m' =? m | RCancel m' => m' =? m | RTick => true end.
+Definition only (m : N) (h : list rop) : list rop := filter (about m) h.
+
+Definition scheduled (h : list rop) : list N :=
+  flat_map (fun o => match o with RSchedule m _ => [m] | _ => [] end) h.
+Fixpoint ticks_in (h : list rop) : N :=
+  match h with [] => 0 | RTick :: t => 1 + ticks_in t | _ :: t => ticks_in t end.
+(* ticks before message m's first cancellation *)
+Fixpoint live_len (m : N) (h : list rop) : nat :=
+  match h with
+  | [] => O
+  | RTick :: t => S (live_len m t)
+  | RCancel m' :: t => if m' =? m then O else live_len m t
+  | RSchedule _ _ :: t => live_len m t
+  end.
+Definition log_of (ms : list mrec) (m : N) : option (list N) :=
+  match find (fun r => m_id r =? m) ms with Some r => Some (rev (m_rlog r)) | None => None end.
+
+(* ---- closed form of one message's log, from the history alone (executable property) ---- *)
+Definition sel_of (s : strategy) : option (N -> bool) :=
+  match s with
+  | Std => Some (fun _ => true)
+  | Back b => if reachable_b b then Some (fun p => is_sched (tc b + p)) else None
+  end.
+(* the ticks (global numbering) at which message m, registered by the [RSchedule m s] that
+   follows [pre] and is followed by [post], must be retransmitted: its own schedule counted
+   from its own registration, up to its own cancellation, whatever else is in the history *)
+Definition expected_log (sel : N -> bool) (pre post : list rop) (m : N) : list N :=
+  map (fun p => ticks_in pre + p)
+      (filter sel (map N.of_nat (seq 1 (live_len m post)))).
+
+Fixpoint nodup_b (l : list N) : bool :=
+  match l with [] => true | x :: t => negb (existsb (N.eqb x) t) && nodup_b t end.
+
+(* observed: per message (in registration order) the tick numbers at which its
+   retransmission routine ran *)
+Fixpoint reg_spec (pre h : list rop) (logs : list (N * list N)) : bool :=
+  match h with
+  | [] => match logs with [] => true | _ => false end
+  | RSchedule m s :: post =>
+      match logs with
+      | (m', l) :: logs' =>
+          (m' =? m) &&
+          match sel_of s with
+          | Some sel => list_eqb l (expected_log sel pre post m)
+          | None => true
+          end && reg_spec (pre ++ [RSchedule m s]) post logs'
+      | [] => false
+      end
+  | o :: post => reg_spec (pre ++ [o]) post logs
+  end.
+
+Definition logs_eqb (a : list (N * list N)) (b : list (N * list N)) : bool :=
+  (length a =? length b)%nat &&
+  forallb (fun p => (fst (fst p) =? fst (snd p)) && list_eqb (snd (fst p)) (snd (snd p))) (combine a b).
+
+Definition reg_logs (st : reg) : list (N * list N) :=
+  map (fun r => (m_id r, rev (m_rlog r))) (msgs st).
+
+Inductive anycase :=
+| COne (c : case)
+| CReg (h : list rop) (logs : list (N * list N)) (nh : N).   (* nh: Ticker handler count at the end *)
+
+Definition strategy_wf (s : strategy) : bool :=
+  match s with Std => true | Back b => (tc b <? w64) && (delay b <? w64) && (rt b <? w64) end.
+Definition reg_wf (h : list rop) : bool :=
+  nodup_b (scheduled h) && (N.of_nat (length h) <? 100000) &&
+  forallb (fun o => match o with RSchedule _ s => strategy_wf s | _ => true end) h.
+
+Definition judge_any (c : anycase) : verdict :=
+  match c with
+  | COne c => judge c
+  | CReg h logs nh =>
+      if negb (reg_wf h) then BadCase else
+      let st := rrun h in
+      decide (reg_spec [] h logs)
+             (logs_eqb logs (reg_logs st) && (nh =? N.of_nat (length (handlers st))))
+  end.
+
+Definition explain_any (c : anycase) : list (N * list N) :=
+  match c with
+  | COne c => [(0, explain c)]
+  | CReg h _ _ => reg_logs (rrun h)
+  end.
